@@ -23,7 +23,8 @@ VARIABLES l, viols, done,
           pol,       \* policy snapshot (pools+grants | balloons)
           mem,       \* the policy allocator's view: [zone, size] per request id
           lay,       \* memory layout (from the reset line)
-          pristine,  \* policy snapshot right after the configuration was applied
+          pristine,  \* policy snapshot right after the configuration in force was applied (<<>>: not known)
+          pristine0, \* policy snapshot right after boot
           stopped,   \* containers that have been stopped (C09: they never hold resources again)
           broken,    \* currently broken (predicate, witness) pairs -- for attribution to the breaking step
           mems0,     \* memory nodes a container had when it was created (C12)
@@ -35,7 +36,7 @@ Trace == ndJsonDeserialize(IOEnv.TRACE_FILE)
 N     == Len(Trace)
 E     == Trace[l]
 
-lvars == <<vars, l, viols, done, world, pol, mem, lay, pristine, stopped, broken, mems0, excused, topo>>
+lvars == <<vars, l, viols, done, world, pol, mem, lay, pristine, pristine0, stopped, broken, mems0, excused, topo>>
 
 Has(r, f) == f \in DOMAIN r
 SetOf(s)  == {s[i] : i \in DOMAIN s}
@@ -170,6 +171,8 @@ Quiet(st) == \A c \in DOMAIN st : st[c].st \notin {"creating", "created", "runni
 C09State ==
     {<<"Act_StoppedNeverHolds", c>> : c \in (Holders \cup DOMAIN mem'.zone) \cap stopped'}
     \cup {<<"Inv_NoHolderWithoutContainer", c>> : c \in Holders \ DOMAIN ctrs'}
+    \* a container whose creation was refused does not exist: it holds nothing, now or later
+    \cup {<<"Inv_NoHolderWithoutContainer", c>> : c \in {c \in Holders \cap DOMAIN ctrs' : ctrs'[c].st = "stale"}}
     \cup (IF Quiet(ctrs') /\ rtlive' = {} /\ pristine' # <<>>
           THEN (IF IsTA THEN {<<"Inv_Quiescent", w>> : w \in
                                   {p.name : p \in {p \in SetOf(pol'.pools) : \E q \in SetOf(pristine'.pools) :
@@ -310,8 +313,9 @@ TrReset ==
     /\ IF Has(E, "booterr")
        THEN /\ world' = [policy |-> "none", pincpu |-> TRUE, pinmemory |-> TRUE, prefershared |-> FALSE]
             /\ pol' = <<>> /\ mem' = [zone |-> <<>>, size |-> <<>>] /\ lay' = [nodes |-> {}, type |-> <<>>, cap |-> <<>>, normal |-> {}]
-            /\ pristine' = <<>>
+            /\ pristine' = <<>> /\ pristine0' = <<>>
        ELSE /\ world' = WorldOf(E) /\ pol' = E.st.pol /\ mem' = E.st.mem /\ lay' = LayoutOf(E.memnodes) /\ pristine' = E.st.pol
+            /\ pristine0' = E.st.pol
     /\ pods' = {} /\ ctrs' = <<>> /\ req' = <<>> /\ pend' = {} /\ rt' = <<>> /\ rtlive' = {} /\ residue' = {}
     /\ reply' = Reply("reset", None, FALSE, <<>>, <<>>, <<>>)
     /\ stopped' = {} /\ broken' = {} /\ mems0' = <<>> /\ excused' = {} /\ topo' = SetOf(Get(E, "topo", <<>>))
@@ -324,7 +328,13 @@ TrStep ==
     /\ req' = [c \in DOMAIN ctrs' |-> NoReq] /\ residue' = {}
     /\ pol' = E.st.pol /\ mem' = E.st.mem /\ UNCHANGED <<lay, topo>>
     /\ world' = IF E.ev = "Reconfigure" /\ Ok THEN CfgWorld(world, E.config) ELSE world
-    /\ pristine' = IF E.ev = "Reconfigure" /\ Ok /\ Quiet(ctrs') THEN E.st.pol ELSE pristine
+    \* the configuration booted with has the boot snapshot as its pristine state whenever it is (re-)applied; another
+    \* one applied with nothing alive defines its own; applied under load it leaves the pristine state unknown
+    /\ pristine' = IF E.ev = "Reconfigure" /\ Ok
+                   THEN (IF Get(E, "sameboot", FALSE) THEN pristine0
+                         ELSE IF Quiet(ctrs') THEN E.st.pol ELSE IF Get(E, "same", FALSE) THEN pristine ELSE <<>>)
+                   ELSE pristine
+    /\ UNCHANGED pristine0
     /\ reply' = Reply(E.ev, Get(E, "c", None), E.err, <<>>, <<>>, <<>>)
     /\ mems0' = IF E.ev = "Create" THEN (E.c :> SetOf(Get(E, "mems0l", <<>>))) @@ mems0 ELSE mems0
     /\ stopped' = CASE E.ev \in {"Stop"} -> stopped \cup {E.c}
@@ -359,20 +369,20 @@ TrNoState ==
     /\ viols' = viols \o SetToSeq(
           (IF Has(E, "hang") THEN {V("Act_Returns", "handler-did-not-return-" \o E.ev, E.ev)} ELSE C14Step))
     /\ l' = l + 1
-    /\ UNCHANGED <<vars, done, world, pol, mem, lay, pristine, stopped, broken, mems0, excused, topo>>
+    /\ UNCHANGED <<vars, done, world, pol, mem, lay, pristine, pristine0, stopped, broken, mems0, excused, topo>>
 
 Finish ==
     /\ l = N + 1 /\ ~done
     /\ ndJsonSerialize(IOEnv.VIOL_FILE, viols)
     /\ PrintT("CONSUMED " \o ToString(l - 1))
     /\ done' = TRUE
-    /\ UNCHANGED <<vars, l, viols, world, pol, mem, lay, pristine, stopped, broken, mems0, excused, topo>>
+    /\ UNCHANGED <<vars, l, viols, world, pol, mem, lay, pristine, pristine0, stopped, broken, mems0, excused, topo>>
 
 TraceInit ==
     /\ l = 1 /\ viols = <<>> /\ done = FALSE
     /\ world = [policy |-> "none", pincpu |-> TRUE, pinmemory |-> TRUE, prefershared |-> FALSE]
     /\ pol = <<>> /\ mem = [zone |-> <<>>, size |-> <<>>] /\ lay = [nodes |-> {}, type |-> <<>>, cap |-> <<>>, normal |-> {}]
-    /\ pristine = <<>> /\ stopped = {} /\ broken = {} /\ mems0 = <<>> /\ excused = {} /\ topo = {}
+    /\ pristine = <<>> /\ pristine0 = <<>> /\ stopped = {} /\ broken = {} /\ mems0 = <<>> /\ excused = {} /\ topo = {}
     /\ pods = {} /\ ctrs = <<>> /\ req = <<>> /\ pend = {} /\ rt = <<>> /\ rtlive = {} /\ residue = {}
     /\ reply = Reply("Init", None, FALSE, <<>>, <<>>, <<>>)
 
